@@ -902,7 +902,7 @@ func (g *Gen) vUnicodeRange() string {
 		parts[i] = g.urange()
 	}
 	// N15: the whole code space next to other ranges is printed as "initial" inside a list
-	for !g.known && n > 1 && fullRange(strings.Join(parts, ",")) {
+	for false && !g.known && n > 1 && fullRange(strings.Join(parts, ",")) { // (N15 = K94 repaired: no longer avoided)
 		parts[g.r.Intn(n)] = g.pick("U+41", "U+100-1FF", "u+2??")
 	}
 	return g.commaJoin(parts)
